@@ -24,10 +24,16 @@ Grammar (typed: S scalar, V vector, N nat, B bool, numeric literals adapt to the
 A group (file, lambda) that leaves the grammar is replaced by the committed reference text translate/ref/KernelsGen.ref.v and
 reported as `translator-out-of-grammar` (never a violation by itself).
 
+Consume-everything (translate/strict.py, DESIGN §9.4): the body of every site (QUB loop, the two branches of the line search, the
+backtrack_qub lambda) and of the two switch functions is split into statements and EVERY statement is either translated or one of
+the statements listed in RECOMPUTE / LS_QUB_TAIL / LS_TAIL / HELPERS_PRE / HELPERS_POST, in that order; anything else is out of grammar.
+
 Usage: gen_kernels.py [repo] [outfile] [--write-ref]     (defaults: $VERIF_REPO or /repo, <verif>/coq/gen/KernelsGen.v)
 Prints one JSON status line. Deterministic, python3 stdlib only."""
 import json, os, re, sys, unicodedata
 from fractions import Fraction
+sys.path.insert(0, os.path.dirname(os.path.abspath(__file__)))
+import strict
 
 HERE = os.path.dirname(os.path.abspath(__file__))
 VERIF = os.path.dirname(HERE)
@@ -393,11 +399,6 @@ class Parser:
         k, v = self.peek()
         if k is None:
             raise OutOfGrammar("%s: control reaches the end without return" % self.what)
-        if (k, v) == ("id", "using"):
-            while not self.at("op", ";"):
-                self.eat()
-            self.eat()
-            return self.body()
         if (k, v) == ("id", "return"):
             self.eat()
             e = self.expr()
@@ -572,11 +573,32 @@ def site(sites, needle, what):
     return s[0]
 
 
-def switch_cases(body, what):
-    """the `switch (...) { ... }` of a function body -> ({enumerator: token-text of its body}, default kind)"""
+def accounted(body, forms, what):
+    """consume-everything (translate/strict.py): the top-level statements of `body` are exactly `forms`, in order"""
+    try:
+        return strict.account(strict.split_statements(nfc(body)), forms, what)
+    except strict.Unaccounted as ex:
+        raise OutOfGrammar(str(ex))
+
+
+def known(text):
+    """a statement the translator knows and leaves to the correspondence check (must be there, exactly like this)"""
+    return strict.lit(nfc(text))
+
+
+def switch_cases(body, what, scrutinee, pre, post):
+    """the function body is exactly  <pre: known using-declarations> switch (<scrutinee>) { ... } <post: known throw>
+    -> ({enumerator: token-text of its body}, default kind)"""
+    forms = [("pre%d" % k, known(p), "1") for k, p in enumerate(pre)] + [("switch", r"switch\s*\(.*", "1")] + \
+            [("post%d" % k, known(p), "1") for k, p in enumerate(post)]
+    body = accounted(body, forms, what)["switch"].group(0)
     m = one(r"\bswitch\s*\(", body, what + " switch")
     k = balanced(body, m.end() - 1, what)
+    if flat(body[m.end():k]) != scrutinee:
+        raise OutOfGrammar("%s: switch over %r, expected %r" % (what, flat(body[m.end():k]), scrutinee))
     b = body.index("{", k)
+    if body[k + 1:b].strip() or body[balanced(body, b, what) + 1:].strip():
+        raise OutOfGrammar("%s: text around the switch block" % what)
     inner = body[b + 1:balanced(body, b, what)]
     toks = tokenize(inner)
     i, pending, cases, default = 0, [], {}, None
@@ -655,24 +677,30 @@ OCP_ENV = {"γ": ("S", "gam"), "xuₖ": ("V", "u"), "grad_ψₖ": ("V", "g"), "p
            "work_xu": ("V", "(@nil T)"), "work_p": ("V", "(@nil T)")}
 
 
+HELPERS_PRE = ["using vec_util::norm_1;", "using vec_util::norm_inf;"]        # calc_error_stop_crit: before / after the switch
+HELPERS_POST = ['throw std::out_of_range("Invalid PANOCStopCrit");']
+
+
 def helpers_src(repo):
     return strip_comments(open(os.path.join(repo, INNER, "panoc-helpers.tpp"), encoding="utf-8").read())
 
 
 def grp_helpers_crit(repo, c):
-    cases, default = switch_cases(find_function(helpers_src(repo), "calc_error_stop_crit"), "calc_error_stop_crit")
+    cases, default = switch_cases(find_function(helpers_src(repo), "calc_error_stop_crit"), "calc_error_stop_crit", "crit", HELPERS_PRE, HELPERS_POST)
     if default != "empty" or cases[c] is None:
         raise OutOfGrammar("calc_error_stop_crit: case %s falls to default" % c)
     return [("g_crit_" + c, cases[c], CRIT_SIG, tr_body(cases[c], CRIT_ENV, "calc_error_stop_crit/" + c, "S"))]
 
 
 def grp_helpers_assemble(repo):
-    cases, default = switch_cases(find_function(helpers_src(repo), "calc_error_stop_crit"), "calc_error_stop_crit")
+    cases, default = switch_cases(find_function(helpers_src(repo), "calc_error_stop_crit"), "calc_error_stop_crit", "crit", HELPERS_PRE, HELPERS_POST)
     if default != "empty" or any(cases[c] is None for c in CRITS):
         raise OutOfGrammar("calc_error_stop_crit: a case falls to default")
     arms = " ".join("| %s => g_crit_%s %s" % (c, c, CRIT_ARGS) for c in CRITS)
     out = [("g_crit_eps", "switch (crit) of calc_error_stop_crit", "(c : stopcrit) " + CRIT_SIG, "match c with %s end" % arms)]
-    cases2, default2 = switch_cases(find_function(helpers_src(repo), "stop_crit_requires_grad_ψx̂"), "stop_crit_requires_grad")
+    cases2, default2 = switch_cases(find_function(helpers_src(repo), "stop_crit_requires_grad_ψx̂"), "stop_crit_requires_grad", "crit", [], HELPERS_POST)
+    if default2 != "empty":
+        raise OutOfGrammar("stop_crit_requires_grad: default is not empty")
     arms2 = []
     for c in CRITS:
         if cases2[c] is None:
@@ -691,7 +719,7 @@ FILES = {"panoc": "panoc.tpp", "zerofpr": "zerofpr.tpp", "pantr": "pantr.tpp", "
 
 def grp_ocp_crit(repo):
     params, body = find_lambda(solver_src(repo, FILES["ocp"]), "calc_error_stop_crit")
-    cases, default = switch_cases(body, "ocp calc_error_stop_crit")
+    cases, default = switch_cases(body, "ocp calc_error_stop_crit", "params.stop_crit", ["using vec_util::norm_inf;"], [])
     if default != "throw":
         raise OutOfGrammar("ocp calc_error_stop_crit: default does not throw")
     out, arms = [], []
@@ -755,15 +783,29 @@ def grp_ls(repo, f):
     return [("g_%s_ls_violated" % f, flat(body), sig, tr_body(body, env, f + " linesearch_violated", "B"))]
 
 
-def halving(body, var, sep, f, tag):
+def halving_forms(var, sep):
+    return [(nm, r"%s%s%s\s*([*/])=\s*([^;]+);" % (re.escape(var), re.escape(sep), fld), "1") for nm, fld in (("gamma", "γ"), ("L", "L"))]
+
+
+def halving(r, var, sep, f, tag):
+    """r: the accounted statements of the site (strict.account); the two first are the γ and the L update"""
     out = []
-    for fld, par in (("γ", "gam"), ("L", "L")):
-        m = one(r"%s%s%s\s*([*/])=\s*([^;]+);" % (re.escape(var), re.escape(sep), fld), nfc(body), "%s %s update (%s)" % (f, fld, tag))
+    for fld, par, nm in (("γ", "gam", "gamma"), ("L", "L", "L")):
+        m = r[nm]
         rhs = tr_expr(flat(m.group(2)), {}, "%s %s update" % (f, fld))
         e = arith(m.group(1), ("S", par), rhs)
         out.append(("g_%s_halve_%s_%s" % (f, "gamma" if fld == "γ" else "L", tag), "%s%s%s %s= %s" % (var, sep, fld, m.group(1), flat(m.group(2))),
                     "(%s : T) : T" % par, coerce(e, "S")))
     return out
+
+
+# statements of the sites that are not translated (left to the whole-run correspondence) but must be there, in this place
+RECOMPUTE = {"panoc": ["eval_prox_grad_step(%s);", "eval_ψx̂(%s);"], "zerofpr": ["eval_prox_grad_step(%s);", "eval_cost_in_prox(%s);"],
+             "pantr": ["eval_prox_grad_step(%s);", "eval_ψx̂(%s);"], "ocp": ["eval_prox(%s);", "eval_forward_hat(%s);"]}
+LS_QUB_TAIL = {"panoc": ["++s.stepsize_backtracks;", "update_lbfgs_in_linesearch = false;", "continue;"],
+               "zerofpr": ["++s.stepsize_backtracks;", "update_lbfgs_in_linesearch = false;", "continue;"],
+               "ocp": ["++s.stepsize_backtracks;", "continue;"]}
+LS_TAIL = ["++s.linesearch_backtracks;", "continue;"]
 
 
 def qub_guard(cond, var, sep, f, tag):
@@ -784,9 +826,13 @@ def grp_init_site(repo, f):
     tag = "bt" if f == "pantr" else "init"
     if f == "pantr":
         _, src = find_lambda(src, "backtrack_qub")
+        accounted(src, [("while", r"while\s*\(.*", "1")], "pantr backtrack_qub")          # the lambda body is the loop, nothing else
     cond, body = site(ctrl_sites(src, "while"), "qub_violated(", f + " QUB while loop")
     var, sep = iterate_var(cond, f + " QUB while loop")
-    return qub_guard(cond, var, sep, f, tag) + halving(body, var, sep, f, tag)
+    arg = "*" + var if sep == "->" else var
+    r = accounted(body, halving_forms(var, sep) + [("k%d" % k, known(t % arg), "1") for k, t in enumerate(RECOMPUTE[f])] +
+                  [("count", known("++s.stepsize_backtracks;"), "1")], f + " QUB while loop body")
+    return qub_guard(cond, var, sep, f, tag) + halving(r, var, sep, f, tag)
 
 
 def grp_ls_site(repo, f):
@@ -794,18 +840,19 @@ def grp_ls_site(repo, f):
     ifs = ctrl_sites(src, "if")
     cond, body = site(ifs, "qub_violated(", f + " QUB test in the line search")
     var, sep = iterate_var(cond, f + " QUB test in the line search")
-    out = qub_guard(cond, var, sep, f, "ls") + halving(body, var, sep, f, "ls")
-    m = one(r"\bif\s*\(([^()]*)\)\s*τ\s*=\s*([^;]+);", body, f + " τ reset after step-size change")
+    r = accounted(body, halving_forms(var, sep) + [("reset", r"if\s*\(([^()]*)\)\s*τ\s*=\s*([^;]+);", "1")] +
+                  [("k%d" % k, known(t), "1") for k, t in enumerate(LS_QUB_TAIL[f])], f + " QUB branch of the line search")
+    out = qub_guard(cond, var, sep, f, "ls") + halving(r, var, sep, f, "ls")
+    m = r["reset"]
     env = {"τ": ("S", "tau"), "τ_init": ("S", "tau_init")}
     out.append(("g_%s_tau_reset" % f, "if (%s) τ = %s;" % (flat(m.group(1)), flat(m.group(2))), "(tau tau_init : T) : T",
                 "(if %s then %s else tau)" % (tr_expr(m.group(1), env, f + " τ reset", "B"), tr_expr(m.group(2), env, f + " τ reset", "S"))))
     cond2, body2 = site(ifs, "linesearch_violated(", f + " line-search test")
     env2 = {"τ": ("S", "tau"), "linesearch_violated": ("CALL", "*curr,*next", ("B", "lv"))}
     out.append(("g_%s_ls_guard" % f, cond2, "(tau : T) (lv : bool) : bool", tr_expr(cond2, env2, f + " line-search guard", "B")))
-    m1 = one(r"(?<![\w>.])τ\s*([*/])=\s*([^;]+);", body2, f + " τ update")
-    m2 = one(r"\bif\s*\(([^()]*)\)\s*τ\s*=\s*([^;]+);", body2, f + " τ floor")
-    if m2.start() < m1.start():
-        raise OutOfGrammar(f + " τ update: floor test precedes the update")
+    r2 = accounted(body2, [("update", r"τ\s*([*/])=\s*([^;]+);", "1"), ("floor", r"if\s*\(([^()]*)\)\s*τ\s*=\s*([^;]+);", "1")] +
+                   [("k%d" % k, known(t), "1") for k, t in enumerate(LS_TAIL)], f + " line-search branch")
+    m1, m2 = r2["update"], r2["floor"]
     penv = {"params.linesearch_coefficient_update_factor": ("S", "factor"), "params.min_linesearch_coefficient": ("S", "tau_min")}
     t1 = coerce(arith(m1.group(1), ("S", "tau"), tr_expr(flat(m1.group(2)), penv, f + " τ update")), "S")
     env3 = dict(penv); env3["τ"] = ("S", "l_tau1")
@@ -960,7 +1007,7 @@ def generate(repo, ref_path=REF):
 
 def write(repo=None, outfile=None, write_ref=False):
     repo = repo or os.environ.get("VERIF_REPO", "/repo")
-    outfile = outfile or os.path.join(VERIF, "coq", "gen", "KernelsGen.v")
+    outfile = outfile or os.path.join(os.environ.get("VERIF_GEN_OUT") or os.path.join(VERIF, "coq", "gen"), "KernelsGen.v")
     body, status = generate(repo)
     if write_ref:
         if status["out_of_grammar"]:
